@@ -125,7 +125,10 @@ def run_framework(spec):
     model = spec['model']
     cls = {'SIM': SIM, 'SIMEX1': SIMEX1, 'PC': PC}[model]
     code = 'C9'
-    mod = cls(code, use_book_exogenous=False).build_model()
+    book_start = bool(spec.get('book_start'))
+    # book_start: the builder's own exogenous paths and initial stocks are installed first and then overridden by the
+    # user's (the documented semantics: a later definition overwrites an earlier one)
+    mod = cls(code, use_book_exogenous=book_start).build_model()
     c = mod[code]
     hh = c['HH']
     tf = c['TF']
@@ -135,7 +138,7 @@ def run_framework(spec):
     gov = c['TRE'] if model == 'PC' else c['GOV']
     gov.SetExogenous('DEM_GOOD', [float(g) for g in spec['G']])
     v0 = float(spec['V0'])
-    if v0 != 0.0 or model != 'SIM':
+    if v0 != 0.0 or model != 'SIM' or book_start:
         hh.AddInitialCondition('F', v0)
         gov.AddInitialCondition('F', -v0)
     if model in ('SIMEX1', 'PC'):
@@ -148,7 +151,7 @@ def run_framework(spec):
         hh.AddInitialCondition('DEM_DEP', float(spec['B0']))
     mod.MaxTime = spec['T']
     mod.EquationSolver.ParameterErrorTolerance = 1e-9
-    labels = ['model:' + model, 'places:%d' % spec['places']]
+    labels = ['model:' + model, 'places:%d' % spec['places']] + (['book-start-overridden'] if book_start else [])
     try:
         mod.main()
     except Exception as ex:
@@ -181,7 +184,9 @@ def run_framework(spec):
 
 @st.composite
 def fw_case(draw):
-    return draw(params(draw(st.sampled_from(['PC', 'SIM', 'SIMEX1']))))
+    spec = draw(params(draw(st.sampled_from(['PC', 'SIM', 'SIMEX1']))))
+    spec['book_start'] = draw(st.sampled_from([False, False, True]))
+    return spec
 
 
 @st.composite
